@@ -112,4 +112,10 @@ CHECKS = {
          "all clearly solvable points are submitted as one batch and must be answered with the '+' root (vs the longdouble root), real, non-negative, satisfying psi' + z|psi'|^2 = w and |psi'|^2 = x to rounding; every clearly unsolvable point is submitted "
          "alone and embedded among solvable points and must be refused. Every call made inside adaptive driven runs (hundreds, most of them refusals) is checked by the same oracle."),
    note="values between grid points are not explored; overflow excluded by construction; points with |disc| <= 1e-9 b^2 accept either answer"),
+ "C03": dict(
+   engine="mc-core", category="exploration", design_ref="DESIGN.md 3/C03",
+   technique="exhaustive product of (mesh, cell-area pattern, dual-length pattern, vector potential) on which matrix identities (covering all fields by linearity) and entrywise agreement with explicit neighbour sums are evaluated",
+   text=("For every mesh of the family (zoo, smoothed, hex lattices, sheared, seeded Delaunay, annuli) x 3 area patterns x 3 dual-length patterns x 6 vector potentials: L = D G, a^T D = 0, a^T B = l^T, diag(a) L symmetric, negative semi-definite "
+         "(dense eigen-decomposition) with exactly one constant null vector per connected component, diag(a) L_A Hermitian, G exact on {1, x, y}; every operator is also compared entrywise with explicit neighbour sums from the raw arrays (1e-12; observed 6e-16)."),
+   note="matrix identities cover all site/edge fields by linearity; 'any vector potential' rests on the affine dependence of each entry on one link variable (three distinct phases per edge suffice, five are used); triangulations outside the family not explored"),
 }
